@@ -26,6 +26,13 @@ def corpora(tier, res, want_random_graph=True):
             open(p, 'w').write('\n'.join(gen.random_corpus(sd * 7919 + 13, n, prefix='G')))
         rand_caps = build.capture_files([p], 'randgraph-%d-%d' % (sd, n))
         res.count('random_graph_definitions', len(rand_caps))
+        # the deterministic cross product of attribute forms (lib/gen.py cross_corpus) rides with the random corpus
+        cp = os.path.join(cache_dir('gen', 'cross'), 'cross.rs')
+        if not os.path.exists(cp):
+            open(cp, 'w').write('\n'.join(gen.cross_corpus()) + '\n')
+        cross = build.capture_files([cp], 'cross')
+        res.count('cross_product_definitions', len(cross))
+        rand_caps = list(rand_caps) + list(cross)
     return repo_caps, rand_caps
 
 
